@@ -664,8 +664,8 @@ func gen(g *fw.Gen) {
 		for cid := byte(0); cid < 3; cid++ {
 			for _, l := range []int{255, 256, 257, 300, 512, 513} {
 				i++
-				if !g.Own(i) || (g.Build == "386" && l > 300) {
-					continue
+				if !g.Own(i) || (g.Build == "386" && l > 300) || (g.Quick() && l > 300 && cid != byte(g.Seed%3)) {
+					continue // quick tier: depth 512/513 on one curve (chosen by the seed)
 				}
 				path := make([]uint32, l)
 				for k := range path {
